@@ -271,6 +271,9 @@ pub struct Check {
     infra_errors: Vec<String>,
     regressions: Vec<(String, ReplayFile)>,
     regressions_run: u64,
+    /// upper bound on proptest shrink iterations per shard (lower it where one evaluation of a
+    /// failing case is expensive, e.g. a watchdog wait)
+    pub max_shrink_iters: u32,
 }
 
 thread_local! {
@@ -384,6 +387,7 @@ impl Check {
             infra_errors,
             regressions,
             regressions_run: 0,
+            max_shrink_iters: 20_000,
         }
     }
 
@@ -530,6 +534,7 @@ impl Check {
         let results: Mutex<Vec<(u64, Stats, Option<(String, S::Value)>, Option<String>)>> = Mutex::new(vec![]);
         let open = self.open_keys.clone();
         let seed = self.seed;
+        let max_shrink_iters = self.max_shrink_iters;
         std::thread::scope(|sc| {
             for shard in 0..shards {
                 let (abort, results, f, mk, open) = (&abort, &results, &f, &mk, open.clone());
@@ -541,7 +546,7 @@ impl Check {
                         cfg.rng_seed = RngSeed::Fixed(derive_seed(seed, name, shard));
                         cfg.failure_persistence = None;
                         cfg.verbose = 0;
-                        cfg.max_shrink_iters = 20_000;
+                        cfg.max_shrink_iters = max_shrink_iters;
                         cfg.max_shrink_time = 0;
                         cfg.max_global_rejects = 1 << 20;
                         cfg.max_local_rejects = 1 << 16;
